@@ -123,7 +123,7 @@ pub fn run_and_check(p: &Program, seed: &SeedMode, opts: &CheckOpts) -> Outcome 
     let bound = shadow_bound(p, &seedv, root) * (opts.passes as f64);
     o.exact = bound <= exact_bound();
     o.kink = program_has_kink(p, refv);
-    let vrule = if o.exact { Rule::Exact } else { Rule::Tol(maxmag) };
+    let vscales: Vec<f64> = if o.exact { vec![] } else { value_scales(p).unwrap_or_default() };
 
     // forward
     let arrays = match guard(|| eval_corgi(p)) {
@@ -142,6 +142,9 @@ pub fn run_and_check(p: &Program, seed: &SeedMode, opts: &CheckOpts) -> Outcome 
     if opts.check_values {
         for (i, (a, t)) in arrays.iter().zip(refv).enumerate() {
             o.values_compared += 1;
+            // tolerance relative to the magnitude of the terms the value is made of (never tighter than the program's
+            // largest value)
+            let vrule = if o.exact { Rule::Exact } else { Rule::Tol(vscales.get(i).copied().unwrap_or(1.0).max(maxmag)) };
             match compare(a.dimensions(), &vals(a), t, vrule) {
                 Ok(w) => o.worst_value_err = o.worst_value_err.max(w),
                 Err((kind, detail)) => {
